@@ -49,6 +49,13 @@ CLAIMED = {
                      "stable across batches) are verified for any dimension and batch; the orchestration in evaluate() is bounded only.",
                 note=TRUST + " run() is proved in two sequential region steps; evaluate()'s orchestration is a bounded run-time check.",
                 tech="deductive verification: object invariant (idle work lists) + loop invariants with a recursive sum spec (pyvc/z3); bounded run-time check for the orchestration"),
+    "C16": dict(cat="proof", ref="5/C16",
+                text="For every point of the box and every objective count: DTLZ1 objectives sum to (1+g)/2, DTLZ2-4 objective vectors "
+                     "have squared norm (1+g)^2 (telescoping loop invariant; each step needs sin^2+cos^2=1 at the SAME angle, which is "
+                     "where a wrong variable index fails), ZDT1 and the bi-objective problem satisfy their defining equations; all "
+                     "objectives are non-negative.",
+                note=TRUST + " Real arithmetic and elementary-function axioms (A1, A5); frame axioms of recursive spec functions by induction (trusted).",
+                tech="deductive verification: telescoping loop invariants over recursive spec functions, polynomial lemmas by nlsat (pyvc/z3)"),
     "C18": dict(cat="proof", ref="5/C18",
                 text="Personal-best update, velocity clamp (speed_constriction and both update_velocity variants), the three "
                      "update_position variants and the three select_leader variants are verified for swarms of any size and dimension: "
